@@ -78,6 +78,26 @@ PROPS = {
                     'multisends and multisig edits from the multisig or from strangers (payloads "12", "-2", "abc", "", overflow ...), other transaction types; 2-6 operations per case: restart+resync with acknowledged nonce 0 / behind / at / ahead of the cursor and a growing node height, '
                     'status file corrupted, status file removed. Compared after every operation: the returned cursor and the status file. cmd: type x recipient x fee syntax x amount combinations.',
             'assumptions': ['the configured start block is >= 0 and Minter blocks are numbered consecutively from 1', 'the Minter API returns the blocks of a range in ascending order (as the scripted node does)']},
+    'C08': {'gen': ['gen_srcfacts.py'],
+            'suites': [{'name': 'evm', 'quick': '-n 150 -ops 30', 'thorough': '-n 3000 -ops 40', 'shards': {'quick': 4, 'thorough': 16}},
+                       {'name': 'sigset', 'quick': '-n 150 -ops 40', 'thorough': '-n 1500 -ops 60', 'shards': {'quick': 2, 'thorough': 16}}],
+            'trusted_base': [
+                'translator bin/gen_srcfacts.py (regex based): regenerates coq/Gen/SrcFactsSol.v from solidity/contracts/Hub2.sol on every run: the ordered require conditions and state assignments of updateValset / submitBatch / transferToChain, '
+                'the three comparisons and the skeleton of the checkValidatorSignatures loop, the initial nonces; coq/Gen/SrcFactsGo.v: the Minter multisig threshold and weight expression of the connector. '
+                'The contract model coq/Ext/Hub2Sol.v does not contain these comparisons: it compiles and interprets the extracted text (lemmas C08_source_facts re-check what it compiles to)',
+                'correspondence: the COMPILED contract (module/solidity/Hub2.go bytecode, deployed on go-ethereum backends.SimulatedBackend with an ERC20) is driven with signer-set updates and batches whose digests are the real hub types\' GetCheckpoint values '
+                'and whose signatures are real secp256k1 signatures; accept/revert, the three nonces, the contract\'s token balance, the block height and destination balances are compared after every transaction',
+                'modelled, not verified: that the bytecode in Hub2.go was compiled from Hub2.sol (no solc in the sandbox; the co-execution ties the model to the bytecode, the translator ties it to the source text); checkpoints are compared as the values they hash '
+                '(keccak/ABI injectivity; encodings: C07); ERC20 semantics (transfer reverts on insufficient balance); logic calls, WETH and the guardian functions are not modelled; the Minter multisig rule itself (weights reach the threshold) is Minter\'s, stated as the definition msig_accepts'],
+            'rule': 'seeded cases of 30-40 transactions on one deployment with 1-6 validators (equal / one dominant / near-threshold / random powers, hub normalisation to 2^32-1): signer-set updates (re-powered, added, dropped, same, too weak; nonce +1, +3, equal, lower), '
+                    'batches of 1-4 transfers (nonce +1, +2, stale; timeout future / executing block / executing block + 1 / past; amounts within, draining, exceeding the balance), deposits (within / above the user balance, zero), empty blocks; '
+                    'signer subsets: all, minimal above the threshold, maximal not above it, exactly at it, strongest prefix, random; signature quality valid / invalid (wrong digest or wrong key), invalid ones before and after the quorum; '
+                    'claimed current set: true, wrong set, wrong nonce.',
+            'assumptions': ['powers are non-negative (hypothesis members_nonneg)',
+                            'no member of a signer set is the zero address: ecrecover returns address(0) for a malformed signature, so "valid signature" would not mean "confirmed" for such a member; '
+                            'checked on every hub-emitted set by the monitor C08/zero-address-member (sigset suite), registration of the zero address is refused (C17)',
+                            'the hub stores a signer set in Sort() order, the order in which its attestation is stored and which the relayer presents as the current set (monitor C08/set-not-in-attested-order)',
+                            'keccak256/abi.encode of (gravityId, "checkpoint", nonce, validators, powers) is injective (checkpoints compared as values)']},
     'C18': {'suites': [{'name': 'oracle', 'quick': '-n 300 -ops 80', 'thorough': '-n 4000 -ops 160', 'shards': {'quick': 2, 'thorough': 16}}],
             'trusted_base': [
                 'model: coq/Oracle/Oracle.v (MsgPriceClaim / MsgHoldersClaim handlers, attestation vote lists, tryAttestation threshold, GetNormalizedValPowers, the two AttestationHandler branches, ProcessCurrentEpoch, '
@@ -159,6 +179,11 @@ TEXT = {
                      'hence next nonce = start nonce + number of bridge events at or below the last checked block; a relay round numbers its events consecutively from there (nonce independent of the restart history); '
                      'a send is a deposit iff it goes to the multisig with a JSON command of known type, valid recipient and integer fee 0 <= f < amount - amount/100. PARTIAL: the relay loop is modelled but not co-executed (package main, needs a hub connection).',
             'note': 'Trusted: Coq kernel, extraction + driver, Go harness with the scripted node; the model covers the tree after three connector fix: commits (negative fee, partial-block resync, corrupt status file).'},
+    'C08': {'technique': 'source-to-Coq translator (Hub2.sol conditions interpreted by the model) + Coq proofs of the signature-threshold loop + co-execution with the compiled contract on a simulated chain',
+            'level': 'Theorems for all signer sets, signature subsets and power distributions: the contract\'s check accepts only if validators of its current set with valid signatures hold strictly more than the threshold, and (no invalid signature supplied) exactly then; '
+                     'updateValset / submitBatch additionally need the true current set, a larger nonce, block < timeout and funds, and with those are accepted; every accepted operation advances the event nonce by exactly one, a refused one changes nothing; nonces never decrease; '
+                     'Minter multisig threshold 667/1000 of floor-weights implies >= 66.7% of power. Monitors evaluate the same on the compiled contract. PARTIAL: "fed back through attestation" is covered by composition with C03/C09 theorems, not by one end-to-end model; logic calls are not modelled.',
+            'note': 'Trusted: Coq kernel, the translator, extraction + driver, Go harness + go-ethereum simulated backend; bytecode/source correspondence of Hub2.go is assumed.'},
     'C18': {'technique': 'Coq invariant over claim histories + order-independence lemma for the quorum + sorted-list proof of the weighted median + correspondence with the real x/oracle keeper',
             'level': 'Theorems for all histories and power distributions: epoch, prices and holders change at no step other than the epoch-boundary EndBlocker; voters are pairwise distinct and are exactly the validators with a stored (latest) report of the epoch; '
                      'the in-order early-exit quorum test equals "voters hold >= 66% of bonded power"; a boundary that changes prices/holders had that quorum; every stored price is the weighted median (half-weight bounds on both sides) of the latest reports; '
